@@ -20,7 +20,7 @@ from pbt.props.c09 import split_tail
 ID = "C12"
 RULE = ("matrix of (Term subclass from the live package) x (position: 4 defining, 30 operand slots incl. INSERT VALUES / UPDATE SET / ORDER BY / GROUP BY expressions, 14 operand slots inside select-list items, FROM / JOIN / IN container for selectables) x (six dialect classes) x (get_sql(ctx) / parameterised / str() / as_keyword context); one aliased term object used in the select list and again in WHERE / HAVING / ON / ORDER BY / GROUP BY / a second select item; plus GROUP BY / ORDER BY by defined and "
         "undefined alias. Every cell is one case; a cell is non-trivial when the class can be built and can legally stand in the position; distinct = distinct cell. "
-        "The matrix is enumerated completely in both tiers.")
+        "The matrix is enumerated completely in both tiers. Plus: for every live class whose constructor takes alias=, the constructor argument must render exactly what as_() renders.")
 ASSUMPTIONS = [
     "Star, Index and Rollup carry no alias by nature; Interval is not a Term",
     "MSSQL and Oracle must not reference select aliases in GROUP BY (the alias-free expression is expected there)",
